@@ -373,7 +373,7 @@ def part_case(case, fail):
     if k.startswith("dbg."):
         return {"vs": case["vs"], "dbg": True}
     if k.startswith("yaml."):
-        return {"vs": case["vs"], "yaml": True}
+        return {k2: case[k2] for k2 in ("vs", "yaml", "yind", "yflags") if k2 in case}
     if k.startswith("yamlin."):
         return {"vs": [], "yin": case["yin"]}
     return {"vs": [case["vs"][fail["i"] - 1]], "lib": True}
@@ -403,6 +403,20 @@ class Checker:
         t0 = time.time()
         recs = run_harness(self.work, self.vh, self.gojq, cases, tag)
         t1 = time.time()
+        # a tree that prints far more than the cases can legitimately produce (a flush that repeats its buffer, an endless loop) must end in a
+        # verdict, not in hours of parsing: beyond a budget only the smallest records are validated (they show the same defect)
+        size = [sum(len(x.get("out", [])) for x in rec.get("cli", [])) + sum(len(d.get("err", [])) for d in rec.get("dbg", []) if isinstance(d, dict)) for rec in recs]
+        budget = 40 << 20
+        if sum(size) > budget:
+            keep, tot = set(), 0
+            for i in sorted(range(len(recs)), key=lambda i: size[i]):
+                if tot + size[i] > budget and keep:
+                    break
+                keep.add(i)
+                tot += size[i]
+            self.rep.notes.append("phase %s: the commands wrote %d MiB, %d of %d records (the smallest) were validated" % (tag, sum(size) >> 20, len(keep), len(recs)))
+            self.bump("skipped_oversize", len(recs) - len(keep))
+            cases, recs = [c for i, c in enumerate(cases) if i in keep], [x for i, x in enumerate(recs) if i in keep]
         verdicts, stats = validate(self.work, recs, tag, timeout, per_shard_min)
         vc.log("[C12 %s] %d cases: real code %.1fs, TLC validation %.1fs wall (%d JVM runs, %.0fs summed)" % (
             tag, len(cases), t1 - t0, time.time() - t1, stats["tlc_runs"], stats["tlc_wall"]))
@@ -611,7 +625,9 @@ def run(tier, seed, replay):
             else:           # every value x every configuration
                 cfgs = list(base) + odd + colour_cfgs(r, 5) + [{"raw": "r"}, {"raw": "j", "c": True}]
             cases.append({"vs": uni[i:i + 8], "lib": True, "cli": cfgs, "dbg": (i % (80 if quick else 16) == 0)})
-        ck.check(cases, "u", timeout=900 if quick else 3000)
+        PH = os.environ.get("VERIF_C12_PHASES", "urby")       # development aid: run only some phases
+        if "u" in PH:
+            ck.check(cases, "u", timeout=900 if quick else 3000)
         rep.cov["universe_values_exhaustive"] = True
         rep.cov["exhaustive"] = not quick          # quick samples the configurations per value
 
@@ -631,12 +647,14 @@ def run(tier, seed, replay):
         for cs in COLORS_OK + COLORS_BAD:
             cases.append({"vs": pal_vs, "cli": [{"C": True, "colors": list(cs.encode("latin1"))}, {"C": True, "c": True, "colors": list(cs.encode("latin1"))},
                                                 {"colors": list(cs.encode("latin1"))}, {"C": True, "M": True, "colors": list(cs.encode("latin1"))}]})
-        ck.check(cases, "r", timeout=900 if quick else 3000)
+        if "r" in PH:
+            ck.check(cases, "r", timeout=900 if quick else 3000)
 
         # 5. deep and wide containers (block doubling, flush threshold)
         cases = [{"vs": [v], "lib": i % 3 == 0, "cli": cfgs} for i, (v, cfgs) in enumerate(big_values(r, quick))]
         rep.cov["deep_wide_values"] = len(cases)
-        ck.check(cases, "b", timeout=900 if quick else 3000, per_shard_min=2)
+        if "b" in PH:
+            ck.check(cases, "b", timeout=900 if quick else 3000, per_shard_min=2)
 
         # 6. YAML: written with --yaml-output, read back with --yaml-input
         yv, ybig = yaml_values(r, quick)
@@ -647,10 +665,18 @@ def run(tier, seed, replay):
             cases.append({"vs": [A(blk)], "yaml": True, "yind": n})
             cases.append({"vs": [O([(b"k", A(blk[:6])), (b"m", O([(b"n", blk[0])]))])], "yaml": True, "yind": n})
             cases.append({"vs": [r.choice(yv)[0] if False else A([blk[j] for j in r.sample(range(len(blk)), 4)])], "yaml": True, "yind": n})
+        # --yaml-output together with the options of the JSON writer (-r, -j, --raw-output0, -c, --tab, -C, -M, -S, -a): the documents are the same
+        yopts = ["-r", "-j", "--raw-output0", "-c", "--tab", "-C", "-M", "-S", "-a"]
+        ysel = r.sample(yv, min(len(yv), 40 if quick else 600))
+        for k, vs in enumerate(ysel):
+            cases.append({"vs": vs, "yaml": True, "yflags": [yopts[k % len(yopts)]] + (r.sample(yopts, 2) if k % 4 == 0 else [])})
+        for o in yopts:
+            cases.append({"vs": [O([(b"a", I(1))]), A([I(2)]), S(b"x\ny"), NULL], "yaml": True, "yflags": [o]})
         ydocs = yaml_input_docs(r, quick)
         cases += [{"vs": [], "yin": d} for d in ydocs]
         rep.cov["yaml_cases"] = len(cases)
-        ck.check(cases, "y", timeout=900 if quick else 3000, per_shard_min=6)
+        if "y" in PH:
+            ck.check(cases, "y", timeout=900 if quick else 3000, per_shard_min=6)
 
         # design-level runs
         for fu in futs:
